@@ -35,15 +35,15 @@ import (
 )
 
 type Step struct {
-	Op    string `json:"op"`   // Reset | W | R | Close
-	Path  string `json:"path"` // pair | tunnel1 | tunnel2
-	Dir   string `json:"dir"`  // ab | ba  (who writes -> who reads)
-	Size  int    `json:"size"` // W: bytes written; R: buffer size
-	N     int    `json:"n"`    // bytes the call reported
-	Off   int    `json:"off"`  // R: stream offset of the first byte returned, as the content says; -1 if wrong
-	Err   string `json:"err"`  // "" | timeout | eof | closed | reset | other
-	End   string `json:"end"`  // Close: which end closed (a | b)
-	Cmd   string `json:"cmd"`
+	Op   string `json:"op"`   // Reset | W | R | Close
+	Path string `json:"path"` // pair | tunnel1 | tunnel2
+	Dir  string `json:"dir"`  // ab | ba  (who writes -> who reads)
+	Size int    `json:"size"` // W: bytes written; R: buffer size
+	N    int    `json:"n"`    // bytes the call reported
+	Off  int    `json:"off"`  // R: stream offset of the first byte returned, as the content says; -1 if wrong
+	Err  string `json:"err"`  // "" | timeout | eof | closed | reset | other
+	End  string `json:"end"`  // Close: which end closed (a | b)
+	Cmd  string `json:"cmd"`
 }
 
 type sched struct {
@@ -392,7 +392,72 @@ func (r *run) bulk(total, chunk int) {
 	}
 }
 
-func num(v interface{}) int { f, _ := v.(float64); return int(f) }
+// burst: one end writes total bytes and closes the moment its last Write has returned, while the other end reads
+// slowly: everything that was accepted must still arrive, followed by a clean end of stream. One Burst line:
+// size = bytes the writes accepted, n = bytes read, off = offset of the first wrong byte (-1: none), err = how
+// the reading ended ("eof" = clean end of stream).
+func (r *run) burst(end string, total int) {
+	if r.closedBy != "" {
+		return
+	}
+	dir := "ab"
+	if end == "b" {
+		dir = "ba"
+	}
+	w, rd := r.ends(dir)
+	base := r.wrote[dir]
+	wrote, read, bad := 0, 0, -1
+	werr, rerr := "", ""
+	var wg sync.WaitGroup
+	wg.Add(2)
+	go func() {
+		defer wg.Done()
+		for wrote < total {
+			n := 64 * 1024
+			if total-wrote < n {
+				n = total - wrote
+			}
+			_ = w.SetWriteDeadline(time.Now().Add(20 * time.Second))
+			k, err := w.Write(fill(base+wrote, n))
+			wrote += k
+			if err != nil {
+				werr = classify(err)
+				break
+			}
+		}
+		_ = w.Close()
+	}()
+	go func() {
+		defer wg.Done()
+		buf := make([]byte, 32*1024)
+		for {
+			_ = rd.SetReadDeadline(time.Now().Add(20 * time.Second))
+			k, err := rd.Read(buf)
+			for i := 0; i < k && bad < 0; i++ {
+				if buf[i] != pat(base+read+i) {
+					bad = base + read + i
+				}
+			}
+			read += k
+			if err != nil {
+				rerr = classify(err)
+				return
+			}
+			time.Sleep(500 * time.Microsecond) // a slow reader: the writer is done long before everything was read
+		}
+	}()
+	wg.Wait()
+	r.wrote[dir] += wrote
+	r.read[dir] += read
+	r.closedBy = end
+	e := rerr
+	if werr != "" {
+		e = "write:" + werr
+	}
+	r.emit(&Step{Op: "Burst", Path: r.path, Dir: dir, End: end, Size: wrote, N: read, Off: bad, Err: e})
+}
+
+func num(v interface{}) int    { f, _ := v.(float64); return int(f) }
 func str(v interface{}) string { s, _ := v.(string); return s }
 
 func main() {
@@ -432,6 +497,8 @@ func main() {
 				c = []interface{}{"Close", s.End}
 			case "Bulk":
 				c = []interface{}{"BulkResult", s.Dir, s.Size, s.N, s.Off}
+			case "Burst":
+				c = []interface{}{"Burst", s.End, s.Size}
 			default:
 				c = []interface{}{s.Op, s.Path}
 			}
@@ -469,6 +536,8 @@ func main() {
 			r.close(end)
 		case "Bulk":
 			r.bulk(num(a[1]), num(a[2]))
+		case "Burst":
+			r.burst(str(a[1]), num(a[2]))
 		}
 	}
 	for _, path := range sf.Paths {
